@@ -59,6 +59,20 @@ def main(argv=None):
     ap.add_argument("--replay")
     a = ap.parse_args(argv)
     seed = int(os.environ.get("VERIF_SEED", "0") or 0)
+    # last resort against a check that never returns (a worker lost, a subprocess stuck): far above any
+    # normal running time, and reported as a failure of the machinery, never as a verdict
+    import signal  # noqa: PLC0415
+
+    def _overdue(signum, frame):
+        print(f"MACHINERY-ERROR property={a.prop}: the check did not finish within its wall-clock budget", file=sys.stderr)
+        sys.stderr.flush()
+        try:
+            os.killpg(os.getpgid(0), signal.SIGTERM) if os.getpgid(0) == os.getpid() else None
+        finally:
+            os._exit(2)
+
+    signal.signal(signal.SIGALRM, _overdue)
+    signal.alarm(int(os.environ.get("VERIF_BUDGET_S", "3600" if a.tier == "quick" else "14400")))
     if a.replay:
         from . import replay
         return replay.run(a.prop, a.replay)
